@@ -410,7 +410,7 @@ pub fn run(ctx: &Ctx) -> i32 {
         tier,
         seed: ctx.seed,
         level: "exploration",
-        rule: "scenario = InflightLimitLayer(limit in {1,2,3,8,64}, Block|ReturnError) around a gauged service on a 4-worker tokio runtime; 4-16 tasks share clones of the layered service (and services built from clones of the layer) and issue 1.5k (thorough 20k) requests each for 1-6 peers: finish after 0-7 yields, fail, or get cancelled after 0-5 polls (before the permit, while waiting for it, inside the call); the gauge is one fetch_add in the synchronous part of the inner call() whose return value is the observation (<= limit), a guard decrements on completion/error/drop; at quiescence gauges are 0; 400 fresh-peer rounds make 8 tasks fire at one brand-new peer at the same moment (barrier) so that the creation of a peer's bookkeeping is itself raced; a probe fills every peer with exactly `limit` never-finishing requests (the next is refused / keeps waiting) which also shows per-peer isolation; distinct by (mode, limit, limit reached, refusals seen, cancellations seen)".into(),
+        rule: "scenario = InflightLimitLayer(limit in {1,2,3,8,64}, Block|ReturnError) around a gauged service on a 4-worker tokio runtime; 4-16 tasks share clones of the layered service (and services built from clones of the layer) and issue 1.5k (thorough 20k) requests each for 1-6 peers: finish after 0-7 yields, fail, or get cancelled after 0-5 polls (before the permit, while waiting for it, inside the call); the gauge is one fetch_add in the synchronous part of the inner call() whose return value is the observation (<= limit), a guard decrements on completion/error/drop; at quiescence gauges are 0; 400 fresh-peer rounds make 8 tasks fire at one brand-new peer at the same moment (barrier) so that the creation of a peer's bookkeeping is itself raced; a probe fills every peer with exactly `limit` never-finishing requests (the next is refused / keeps waiting) which also shows per-peer isolation; distinct by (mode, limit, limit reached, refusals seen, cancellations seen) The capacity probe at the quiescent point is decided on logical steps: probe futures are polled by hand (no-op waker, unconstrained) a fixed number of times, no clock.".into(),
         assumptions: vec!["interleavings are those a 4-worker runtime produces; the over-limit probe waits 30 ms of real time".into()],
         summary,
         extra: Default::default(),
